@@ -12,7 +12,7 @@ var queryLeads = []string{
 
 var queryWraps = []string{
 	"%s", "(%s)", "(%s) UNION ALL (SELECT 2)", "(%s) UNION ALL SELECT 2", "(%s) INTERSECT DISTINCT (SELECT 2)", "(%s) EXCEPT ALL (SELECT 2)", "(%s) ORDER BY 1", "(%s) LIMIT 1", "(%s) LIMIT 1 OFFSET 2",
-	"((%s) UNION ALL (SELECT 2)) LIMIT 1",
+	"((%s) UNION ALL (SELECT 2)) LIMIT 1", "(%s) |> WHERE TRUE", "(%s) |> SELECT 1 |> WHERE TRUE",
 }
 
 var querySlots = []struct{ entry, tmpl string }{
@@ -29,9 +29,9 @@ func querySlotMatrix(c *Ctx, f func(entry, input string)) {
 	for _, sl := range querySlots {
 		for _, w := range queryWraps {
 			for _, l := range queryLeads {
-				// left out, because the pinned tree rejects them and they are carried as known findings by representative
-				// input (KNOWN_FINDINGS.txt): a table sub-query that is parenthesised as a whole (`FROM ((SELECT 1))`, K8),
-				// and `(query) |> operator` in sub-query positions (K9; the wrap is not in queryWraps)
+				// left out, because the tree rejects it and it is carried as a known finding by representative input
+				// (KNOWN_FINDINGS.txt): a table sub-query that is parenthesised as a whole (`FROM ((SELECT 1))`, K8).
+				// `(query) |> operator` in sub-query positions (K9) was found with this matrix and has been repaired.
 				if strings.HasPrefix(sl.tmpl, "SELECT * FROM (%s)") && (w == "(%s)" || (w == "%s" && strings.HasPrefix(l, "("))) {
 					continue
 				}
